@@ -47,7 +47,7 @@ func sortInts(a []int) {
 func init() {
 	register(&Check{
 		ID:     "C12",
-		Rule:   "birth moments: every day of the birth-year set (quick 20 years, thorough ~400 years: stride-31 years over 1..9800 plus every other year 1890..2060) at 00:30 and 23:30, plus {t-2h, t-1s, t, t+1s, t+2h} around every Jie instant of those years; x gender {0,1} x start-offset school {1,2}; all 10 great periods; all annual and minor fortunes of one (gender, school) configuration per birth (rotating) and the first of each period for the others; monthly fortunes of the first year of every period; plus, per birth year, all 72 ordered pairs of a 9-chart alphabet (same lunar year / other civil year, same civil year / other lunar year, same day / other time, next day, 60 years apart) evaluated back to back. non-trivial = births within 2 h of a Jie instant or at 23:30, and configurations whose direction is backward",
+		Rule:   "birth moments: every day of the birth-year set (quick 20 years, thorough ~400 years: stride-31 years over 1..9800 plus every other year 1890..2060) at 00:30 and 23:30, plus {t-2h, t-1s, t, t+1s, t+2h} around every Jie instant of those years; x gender {0,1} x start-offset school {1,2}; all 10 great periods (25 via GetDaYunBy(25) for the rotating full configuration, plus GetLiuNianBy(130)/GetXiaoYunBy(130) on one period); all annual and minor fortunes of one (gender, school) configuration per birth (rotating) and the first of each period for the others; monthly fortunes of the first year of every period; plus, per birth year, all 72 ordered pairs of a 9-chart alphabet (same lunar year / other civil year, same civil year / other lunar year, same day / other time, next day, 60 years apart) evaluated back to back. non-trivial = births within 2 h of a Jie instant or at 23:30, and configurations whose direction is backward",
 		Assume: []string{"school-1 offset is judged to within 2 two-hour slots (a distance between two slot-quantised moments is ambiguous by one slot at each end; the statement does not fix slot indexing); school-2 offset to within 1 minute", "male = gender 1; yang year = even exact year stem"},
 		Shards: func(tier string, seed int64) []Shard {
 			ys := c12Years(tier, seed)
@@ -110,8 +110,12 @@ func runC12(w *W) {
 					if a == b || days[a] == nil || days[b] == nil {
 						continue
 					}
-					c12Birth(w, days[a], alpha[a].t, a)
-					c12Birth(w, days[b], alpha[b].t, b)
+					if msg, p := try(func() {
+						c12Birth(w, days[a], alpha[a].t, a)
+						c12Birth(w, days[b], alpha[b].t, b)
+					}); p {
+						w.Viol("C12:pairs:panic:"+panicSite(msg), fmt.Sprintf("panic while evaluating charts %s then %s: %s", days[a].Ymd, days[b].Ymd, msg), days[b].Ymd)
+					}
 					w.R.Transitions++
 				}
 			}
@@ -206,32 +210,28 @@ func c12Birth(w *W, d *Day, t hms, ti int) {
 			}
 			sy = start.GetYear()
 			// ---- great periods
+			// the full configuration walks GetDaYunBy(25) (ages up to ~250) instead of the default ten periods: the chain
+			// rules have no upper age; GetDaYun() must be its ten-period prefix
+			full := (g*2 + school - 1) == fullCfg
+			nPer := 10
+			if full && d.Y+280 <= 9990 {
+				nPer = 25
+			}
 			dys := yun.GetDaYun()
-			if full := (g*2 + school - 1) == fullCfg; full {
-				// the ...By(n) variants are prefixes/extensions of the default lists
-				d13 := yun.GetDaYunBy(13)
-				if len(d13) != 13 {
-					w.Viol("C12:GetDaYunBy:len", ctx+": GetDaYunBy(13) has a different length", ctx)
-				} else {
-					for i := 0; i < 10 && i < len(dys); i++ {
-						if d13[i].GetStartYear() != dys[i].GetStartYear() || d13[i].GetGanZhi() != dys[i].GetGanZhi() {
-							w.Viol("C12:GetDaYunBy:prefix:"+d.Ymd, ctx+": GetDaYunBy(13) is not an extension of GetDaYun()", ctx)
-						}
-					}
-					for i := 10; i < 13; i++ {
-						if d13[i].GetStartYear() != d13[i-1].GetEndYear()+1 || d13[i].GetEndYear() != d13[i].GetStartYear()+9 {
-							w.Viol("C12:GetDaYunBy:chain:"+d.Ymd, ctx+": periods beyond the tenth do not continue the chain", ctx)
-						}
-					}
-					if ln := d13[1].GetLiuNianBy(3); len(ln) != 3 || ln[2].GetYear() != d13[1].GetStartYear()+2 {
-						w.Viol("C12:GetLiuNianBy:"+d.Ymd, ctx+": GetLiuNianBy(3) wrong", ctx)
-					}
-					if xy := d13[1].GetXiaoYunBy(3); len(xy) != 3 || xy[2].GetYear() != d13[1].GetStartYear()+2 {
-						w.Viol("C12:GetXiaoYunBy:"+d.Ymd, ctx+": GetXiaoYunBy(3) wrong", ctx)
+			if nPer > 10 {
+				def := dys
+				dys = yun.GetDaYunBy(nPer)
+				if len(def) != 10 || len(dys) != nPer {
+					w.Viol("C12:GetDaYunBy:len", fmt.Sprintf("%s: GetDaYun() has %d periods, GetDaYunBy(%d) has %d", ctx, len(def), nPer, len(dys)), ctx)
+					continue
+				}
+				for i := range def {
+					if def[i].GetStartYear() != dys[i].GetStartYear() || def[i].GetEndYear() != dys[i].GetEndYear() || def[i].GetGanZhi() != dys[i].GetGanZhi() || def[i].GetIndex() != dys[i].GetIndex() {
+						w.Viol("C12:GetDaYunBy:prefix:"+d.Ymd, ctx+": GetDaYun() is not the ten-period prefix of GetDaYunBy(n)", ctx)
 					}
 				}
 			}
-			if len(dys) != 10 {
+			if len(dys) != nPer {
 				w.Viol("C12:DaYun:len", fmt.Sprintf("%s: %d periods", ctx, len(dys)), ctx)
 				continue
 			}
@@ -270,11 +270,19 @@ func c12Birth(w *W, d *Day, t hms, ti int) {
 					}
 				}
 				// ---- annual, minor, monthly fortunes
-				full := (g*2 + school - 1) == fullCfg
 				lns, xys := dy.GetLiuNian(), dy.GetXiaoYun()
 				wantN := 10
 				if i == 0 {
 					wantN = dy.GetEndYear() - dy.GetStartYear() + 1
+				}
+				if nPer > 10 && i == 2 {
+					// the ...By(n) lists of one period, far beyond its ten years: same rules, default lists are their prefix
+					l2, x2 := dy.GetLiuNianBy(130), dy.GetXiaoYunBy(130)
+					if len(l2) != 130 || len(x2) != 130 || len(lns) != 10 || len(xys) != 10 || l2[9].GetYear() != lns[9].GetYear() || x2[9].GetGanZhi() != xys[9].GetGanZhi() {
+						bad("By(130)-prefix", fmt.Sprintf("%d/%d", len(l2), len(x2)), "130/130 extending the default lists")
+						continue
+					}
+					lns, xys, wantN = l2, x2, 130
 				}
 				if len(lns) != wantN || len(xys) != wantN {
 					bad("fortune-count", fmt.Sprintf("%d/%d", len(lns), len(xys)), wantN)
@@ -291,8 +299,12 @@ func c12Birth(w *W, d *Day, t hms, ti int) {
 					if ln.GetYear() != yr || ln.GetAge() != yr-d.Y+1 || ln.GetIndex() != k {
 						bad("LiuNian.year/age", fmt.Sprintf("%d/%d", ln.GetYear(), ln.GetAge()), fmt.Sprintf("%d/%d", yr, yr-d.Y+1))
 					}
-					if ln.GetGanZhi() != gz(mod(yr-4, 60)) {
-						bad("LiuNian.pillar", fmt.Sprintf("%d:%s", yr, ln.GetGanZhi()), gz(mod(yr-4, 60)))
+					// the annual pillar costs a lunar conversion: beyond the default ten periods / ten years it is read for
+					// the first entry and every 40th only; ages, years and minor fortunes are checked on every entry
+					if (i < 10 && k < 10) || k%40 == 0 {
+						if ln.GetGanZhi() != gz(mod(yr-4, 60)) {
+							bad("LiuNian.pillar", fmt.Sprintf("%d:%s", yr, ln.GetGanZhi()), gz(mod(yr-4, 60)))
+						}
 					}
 					if xy.GetYear() != yr || xy.GetAge() != yr-d.Y+1 || xy.GetIndex() != k {
 						bad("XiaoYun.year/age", fmt.Sprintf("%d/%d", xy.GetYear(), xy.GetAge()), fmt.Sprintf("%d/%d", yr, yr-d.Y+1))
